@@ -78,46 +78,6 @@ theorem where_indicator_eq_clip (f r : Stairs P) (lo hi : Option P) (hb : bounds
     rw [this]; cases f.hasSteps <;> cases (indicator lo hi f.closed).hasSteps <;> simp
   rw [hs]
 
-theorem wf_layerIndicator (lo hi : Option P) (cl : Side) : (layerIndicator lo hi cl : Stairs P).WF := by
-  unfold layerIndicator
-  apply wf_canon
-  cases lo <;> cases hi <;> simp [WF, Sorted]
-  rename_i a b
-  by_cases h1 : a < b
-  · simp [h1]
-  · by_cases h2 : b < a <;> simp [h1, h2]
-
-/-- the indicator that `mask((a,b))` builds by layering is non-zero exactly inside the window (for `a < b`) -/
-theorem den_layerIndicator (lo hi : Option P) (cl : Side) (hb : boundsOk lo hi = true) (st : Bool) (x : P) :
-    Den (layerIndicator lo hi cl) st x = some (if inWindow st lo hi x then 1 else 0) := by
-  have hwf : ∀ (g : Stairs P), g.WF → Den g.canon st x = Den g st x := fun g hg => den_canon g hg st x
-  cases lo with
-  | none =>
-    cases hi with
-    | none => simp [layerIndicator, Den, inWindow, canon, removeRedundant]
-    | some b =>
-      unfold layerIndicator
-      rw [hwf _ (by simp [WF, Sorted])]
-      simp only [Den, inWindow, lim_cons, lim_nil, Bool.true_and]
-      cases reached st b x <;> simp
-  | some a =>
-    cases hi with
-    | none =>
-      unfold layerIndicator
-      rw [hwf _ (by simp [WF, Sorted])]
-      simp only [Den, inWindow, lim_cons, lim_nil, Bool.and_true]
-      cases reached st a x <;> simp
-    | some b =>
-      have hab : a < b := by simpa [boundsOk] using hb
-      unfold layerIndicator
-      simp only [if_pos hab]
-      rw [hwf _ (by simp [WF, Sorted, hab])]
-      simp only [Den, inWindow, lim_cons, lim_nil]
-      by_cases ha : reached st a x = true
-      · by_cases hb' : reached st b x = true <;> simp [ha, hb']
-      · have hb' : ¬ reached st b x = true := fun h => ha (reached_mono hab h)
-        simp [ha, hb']
-
 /-- **mask((a, b))**: undefined inside the window, `f` outside; canonical, same closed side -/
 theorem mask_tuple_spec (f : Stairs P) (lo hi : Option P) (hf : f.WF) (hb : boundsOk lo hi = true) :
     (maskTuple f lo hi).Canonical ∧ (maskTuple f lo hi).closed = f.closed ∧
